@@ -2250,6 +2250,9 @@ class UpdateRisk(Algo):
         # General setup of risk on nodes
         if not hasattr(target, "risk"):
             self._setup_risk(target, set_history)
+        elif set_history and not hasattr(target, "risks"):
+            # risk was set up by a measure tracked to a shallower depth
+            target.risks = pd.DataFrame(index=target.data.index)
         if self.measure not in target.risk:
             self._setup_measure(target, set_history)
 
